@@ -559,6 +559,19 @@ def task_numeric(tier, seed):
         a = rng.uniform(-1, 1, 3) * L
         b = a + rng.uniform(-0.499, 0.499, 3) * L
         cases.append(("triclinic-short-separation", a, b, box))
+    # consecutive calls with boxes that share the diagonal but not the skew (and the same box again): a result must depend on the box
+    # given in THIS call only -- anything remembered from an earlier call (an inverse keyed on too little) shows here
+    for _ in range(20 if tier == "quick" else 200):
+        L = rng.uniform(0.5, 20, 3)
+        for rep in range(3):
+            box = np.diag(L)
+            if rep != 1:
+                box[1, 0] = rng.uniform(-0.45, 0.45) * L[0]
+                box[2, 0] = rng.uniform(-0.45, 0.45) * L[0]
+                box[2, 1] = rng.uniform(-0.45, 0.45) * L[1]
+            a = rng.uniform(-1, 1, 3) * L
+            b = a + rng.uniform(-2.4, 2.4, 3) * L
+            cases.append(("same-diagonal-different-skew-in-sequence", a, b, box))
     for L in itertools.product(edges[:4], repeat=3):
         if rng.random() > (0.3 if tier == "quick" else 1.0):
             continue
